@@ -777,7 +777,7 @@ def k5_read(root: int, l1: int, l2: int, u: int) -> bool:
     return ob.post(ok)
 
 
-MID_LINKS_QUICK = ('rel', 'ref', 'bare', 'str2', 'ref2')
+MID_LINKS_QUICK = ('rel', 'ref', 'str2', 'ref2')
 
 
 def obligations(tier: str) -> List[Ob]:
